@@ -2,6 +2,7 @@ package rules
 
 import (
 	"go/token"
+	"go/types"
 	"sort"
 	"strings"
 
@@ -422,3 +423,580 @@ func addressableByConstruction(v ssa.Value, depth int) bool {
 }
 
 var _ = report.Discharged
+
+// ---------------------------------------------------------------------------
+// OWN-SCRATCHOUT
+
+// OwnScratchOut implements OWN-SCRATCHOUT: a byte buffer kept in a field of a
+// reader or writer is never handed out.
+func OwnScratchOut(p *load.Program) *report.RuleResult {
+	r := newResult("OWN-SCRATCHOUT", "no method of a type of package ion hands out a byte slice that aliases a buffer kept in a field of its receiver ([]byte, bytes.Buffer): such a slice is only indexed, measured, copied from, appended to and stored back into the same field; it is not returned to a caller outside the type's own helpers, stored anywhere else, boxed, or passed to something that keeps it. The next value overwrites a reused buffer, so a value handed out earlier (a clob from ByteValue, an atom buffered until Finish) would change after the fact", 0)
+	for _, fn := range sortedFuncs(p) {
+		if p.InTest(fn) || !p.InModule(fn) || fn.Pkg == nil || fn.Pkg != p.Ion || fn.Signature.Recv() == nil || len(fn.Blocks) == 0 || len(fn.Params) == 0 {
+			continue
+		}
+		recv := fn.Params[0]
+		for _, b := range fn.Blocks {
+			for _, in := range b.Instrs {
+				fa, ok := in.(*ssa.FieldAddr)
+				if !ok || fa.X != ssa.Value(recv) || fa.Referrers() == nil {
+					continue
+				}
+				fname := fieldName2(fa)
+				kind := scratchKind(fa)
+				if kind == "" {
+					continue
+				}
+				for _, u := range *fa.Referrers() {
+					var origin ssa.Value
+					switch x := u.(type) {
+					case *ssa.UnOp:
+						if kind == "slice" && x.Op == token.MUL {
+							origin = x
+						}
+					case *ssa.Call:
+						if f := x.Call.StaticCallee(); kind == "buffer" && f != nil && f.Pkg != nil && f.Pkg.Pkg.Path() == "bytes" && (f.Name() == "Bytes" || f.Name() == "Next") && len(x.Call.Args) > 0 && x.Call.Args[0] == ssa.Value(fa) {
+							origin = x
+						}
+					}
+					if origin == nil {
+						continue
+					}
+					what := sprintf("bytes of the receiver's buffer field %s", fname)
+					w := &scratchWalk{p: p, field: fname, recvType: recvTypeName(fn), seen: map[ssa.Value]bool{}}
+					if esc := w.escapes(origin, 3); esc != "" {
+						r.Bad(p.FuncName(fn), instrPos(p, origin.(ssa.Instruction)), what, "the slice aliases a buffer that the next value reuses and "+esc+": what was handed out changes when the buffer is written again")
+					} else {
+						r.OK(p.FuncName(fn), instrPos(p, origin.(ssa.Instruction)), what, "only inspected, copied from, appended to or stored back into the same field")
+					}
+				}
+			}
+		}
+	}
+	return r
+}
+
+func scratchKind(fa *ssa.FieldAddr) string {
+	pt, ok := fa.Type().Underlying().(*types.Pointer)
+	if !ok {
+		return ""
+	}
+	t := pt.Elem()
+	if sl, ok := t.Underlying().(*types.Slice); ok {
+		if b, ok := sl.Elem().(*types.Basic); ok && b.Kind() == types.Uint8 {
+			if _, named := t.(*types.Named); !named {
+				return "slice"
+			}
+		}
+		return ""
+	}
+	if ptr, ok := t.(*types.Pointer); ok {
+		t = ptr.Elem()
+	}
+	if n, ok := t.(*types.Named); ok && n.Obj().Pkg() != nil && n.Obj().Pkg().Path() == "bytes" && n.Obj().Name() == "Buffer" {
+		if _, isPtr := pt.Elem().(*types.Pointer); !isPtr {
+			return "buffer"
+		}
+	}
+	return ""
+}
+
+type scratchWalk struct {
+	p        *load.Program
+	field    string
+	recvType string
+	seen     map[ssa.Value]bool
+	inCallee int // > 0 while a callee is walked on behalf of a call whose result is followed at the call site
+}
+
+func (w *scratchWalk) escapes(v ssa.Value, depth int) string {
+	if w.seen[v] || v.Referrers() == nil {
+		return ""
+	}
+	w.seen[v] = true
+	for _, u := range *v.Referrers() {
+		switch x := u.(type) {
+		case *ssa.DebugRef, *ssa.IndexAddr, *ssa.Index, *ssa.BinOp, *ssa.Lookup:
+		case *ssa.Slice, *ssa.Phi, *ssa.ChangeType:
+			if esc := w.escapes(x.(ssa.Value), depth); esc != "" {
+				return esc
+			}
+		case *ssa.Convert:
+			if b, ok := x.Type().Underlying().(*types.Basic); ok && b.Info()&types.IsString != 0 {
+				continue // string(bs) copies
+			}
+			if esc := w.escapes(x, depth); esc != "" {
+				return esc
+			}
+		case *ssa.Store:
+			if x.Val != v {
+				continue
+			}
+			if fa, ok := x.Addr.(*ssa.FieldAddr); ok && fieldName2(fa) == w.field && ssau.TypeName(fa.X.Type()) == w.recvType {
+				continue // stored back into the buffer field
+			}
+			if al, ok := x.Addr.(*ssa.Alloc); ok {
+				// a local variable (also one whose address is handed to a helper that appends to it)
+				for _, lu := range *al.Referrers() {
+					if ld, ok := lu.(*ssa.UnOp); ok && ld.Op == token.MUL {
+						if esc := w.escapes(ld, depth); esc != "" {
+							return esc
+						}
+					}
+				}
+				continue
+			}
+			return "is stored in " + cleanPath(ssau.Path(x.Addr))
+		case *ssa.MakeInterface:
+			return "is boxed into an interface value"
+		case *ssa.Return:
+			fn := x.Parent()
+			if w.inCallee > 0 {
+				continue // the result is followed where the call was made
+			}
+			if depth == 0 || (fn.Object() != nil && fn.Object().Exported()) {
+				return "is returned by " + w.p.FuncName(fn)
+			}
+			idx := -1
+			for i, rv := range x.Results {
+				if rv == v {
+					idx = i
+				}
+			}
+			for _, g := range sortedFuncs(w.p) {
+				if w.p.InTest(g) || !w.p.InModule(g) {
+					continue
+				}
+				for _, gb := range g.Blocks {
+					for _, gi := range gb.Instrs {
+						c, ok := gi.(*ssa.Call)
+						if !ok || c.Call.StaticCallee() != fn {
+							continue
+						}
+						if len(x.Results) == 1 {
+							if esc := w.escapes(c, depth-1); esc != "" {
+								return esc
+							}
+							continue
+						}
+						for _, cu := range *c.Referrers() {
+							if ex, ok := cu.(*ssa.Extract); ok && ex.Index == idx {
+								if esc := w.escapes(ex, depth-1); esc != "" {
+									return esc
+								}
+							}
+						}
+					}
+				}
+			}
+		case ssa.CallInstruction:
+			cc := x.Common()
+			if b, ok := cc.Value.(*ssa.Builtin); ok {
+				switch b.Name() {
+				case "append":
+					if len(cc.Args) > 0 && cc.Args[0] == v {
+						if val, ok := x.(ssa.Value); ok {
+							if esc := w.escapes(val, depth); esc != "" {
+								return esc
+							}
+						}
+					}
+				}
+				continue // len, cap, copy, append FROM
+			}
+			if cc.IsInvoke() {
+				if cc.Method.Name() == "Write" {
+					continue // io.Writer: must not retain
+				}
+				return "is passed to the interface method " + cc.Method.Name()
+			}
+			f := cc.StaticCallee()
+			if f == nil {
+				return "is passed to a function value"
+			}
+			if !w.p.InModule(f) || len(f.Blocks) == 0 {
+				continue // standard library: reads or copies
+			}
+			if depth == 0 {
+				return "is passed to " + w.p.FuncName(f)
+			}
+			for i, a := range cc.Args {
+				if a == v && i < len(f.Params) {
+					w.inCallee++
+					esc := w.escapes(f.Params[i], depth-1)
+					w.inCallee--
+					if esc != "" {
+						return esc
+					}
+				}
+			}
+			// append-style helpers return (an alias of) their argument
+			if val, ok := x.(ssa.Value); ok {
+				if sl, ok := val.Type().Underlying().(*types.Slice); ok {
+					if bb, ok := sl.Elem().Underlying().(*types.Basic); ok && bb.Kind() == types.Uint8 {
+						if esc := w.escapes(val, depth); esc != "" {
+							return esc
+						}
+					}
+				}
+			}
+		default:
+			return "is used by " + u.String()
+		}
+	}
+	return ""
+}
+
+// ---------------------------------------------------------------------------
+// ERR-EOFONLY
+
+// ErrEOFOnly implements ERR-EOFONLY: the end-of-input sentinel stands for
+// io.EOF and nothing else.
+func ErrEOFOnly(p *load.Program) *report.RuleResult {
+	r := newResult("ERR-EOFONLY", "in the reader files, an exit that returns the end-of-input sentinel -1 with a nil error is reached only on the edge where the source's error equals io.EOF: any other error of the source (io.ErrUnexpectedEOF of a truncated gzip stream included) is an input failure that the caller must see, and -1 at a value boundary ends the traversal with Err() == nil", 2)
+	for _, fn := range sortedFuncs(p) {
+		if !ScopeReader.has(p, fn) || len(fn.Blocks) == 0 {
+			continue
+		}
+		ei := errResultIndex(fn)
+		if ei < 0 || fn.Signature.Results().Len() != 2 {
+			continue
+		}
+		var ff *ssau.FactFlow
+		for _, ret := range returns(fn) {
+			k, ok := ssau.ConstInt(ret.Results[1-ei])
+			if !ok || k != -1 || !ssau.IsNilConst(ret.Results[ei]) {
+				continue
+			}
+			if ff == nil {
+				ff = ssau.ComputeFacts(fn, ssau.StoreKills)
+			}
+			facts := ff.At(ret)
+			_, eof := facts.Any("eq", func(f ssau.Fact) bool { return strings.HasSuffix(strings.TrimSuffix(f.Arg, "^"), "io.EOF") })
+			// a sentinel handed on from a callee or from the pushback buffer (c == -1) is not a translation
+			_, passed := facts.Any("eq", func(f ssau.Fact) bool { return f.Arg == "k:-1" })
+			what := "end-of-input sentinel returned with a nil error"
+			switch {
+			case eof:
+				r.OK(p.FuncName(fn), instrPos(p, ret), what, "only where the source's error is io.EOF")
+			case passed:
+				r.OK(p.FuncName(fn), instrPos(p, ret), what, "a sentinel obtained from another primitive is handed on")
+			default:
+				r.Bad(p.FuncName(fn), instrPos(p, ret), what, "this exit is not restricted to io.EOF: an input failure is reported as a clean end of input, so a traversal can finish with Err() == nil after an I/O error")
+			}
+		}
+	}
+	return r
+}
+
+// ---------------------------------------------------------------------------
+// TAB-READVIA
+
+// TabReadVia implements TAB-READVIA: the binary reader makes up no scalar.
+func TabReadVia(p *load.Program) *report.RuleResult {
+	r := newResult("TAB-READVIA", "every scalar the binary reader stores as the current value is computed from what a bitstream method returned (ReadInt, ReadFloat, ..., Code for booleans); only the container kinds are stored as constants. The bitstream's Read* methods are where the validity rules of the encodings live (negative zero, overlong or truncated bodies): a value made up from a constant on some shortcut (a zero-length int is zero) bypasses them", 8)
+	fn := methodByName(p, "binaryReader", "next")
+	if fn == nil {
+		missing(r, "binaryReader.next", "not found")
+		return r
+	}
+	for _, g := range helperClosure(p, fn, func(f *ssa.Function) bool { return recvTypeName(f) == "binaryReader" }, 1) {
+		for _, b := range g.Blocks {
+			for _, in := range b.Instrs {
+				st, ok := in.(*ssa.Store)
+				if !ok {
+					continue
+				}
+				fa, ok := st.Addr.(*ssa.FieldAddr)
+				if !ok || fieldName2(fa) != "value" {
+					continue
+				}
+				if tn := ssau.TypeName(fa.X.Type()); tn != "binaryReader" && tn != "reader" {
+					continue
+				}
+				v := st.Val
+				if mi, ok := v.(*ssa.MakeInterface); ok {
+					v = mi.X
+				}
+				for {
+					if cv, ok := v.(*ssa.Convert); ok {
+						v = cv.X
+						continue
+					}
+					if ct, ok := v.(*ssa.ChangeType); ok {
+						v = ct.X
+						continue
+					}
+					break
+				}
+				what := "current value stored"
+				c, isConst := v.(*ssa.Const)
+				switch {
+				case !isConst:
+					r.OK(p.FuncName(g), instrPos(p, st), what, "computed from "+describeOperand(v))
+				case c.Value == nil:
+					r.OK(p.FuncName(g), instrPos(p, st), what, "cleared")
+				case ssau.TypeName(c.Type()) == "Type":
+					r.OK(p.FuncName(g), instrPos(p, st), what, "a container kind")
+				default:
+					r.Bad(p.FuncName(g), instrPos(p, st), what, sprintf("the constant %s is stored as a scalar value without reading the body through the bitstream: the checks of the Read* method for this type code are bypassed (0x30, negative zero with no magnitude bytes, is delivered as 0)", c.Value.ExactString()))
+				}
+			}
+		}
+	}
+	return r
+}
+
+// ---------------------------------------------------------------------------
+// NUM-BIGFIT
+
+// NumBigFit implements NUM-BIGFIT: Int64Value asks a big.Int whether it fits.
+func NumBigFit(p *load.Program) *report.RuleResult {
+	r := newResult("NUM-BIGFIT", "reader.Int64Value refuses a value held as a *big.Int only after big.Int.IsInt64 said it does not fit: the readers do not promise to hold every int that fits as an int64 (bitstream.ReadInt delivers -2^63 and zero-padded magnitudes of nine or more bytes as *big.Int), so the dynamic type alone does not tell whether the value fits", 1)
+	fn := methodByName(p, "reader", "Int64Value")
+	if fn == nil {
+		missing(r, "reader.Int64Value", "not found")
+		return r
+	}
+	ei := errResultIndex(fn)
+	var fits *ssa.Call
+	for _, g := range helperClosure(p, fn, func(f *ssa.Function) bool { return f.Object() == nil || !f.Object().Exported() }, 1) {
+		for _, b := range g.Blocks {
+			for _, in := range b.Instrs {
+				c, ok := in.(*ssa.Call)
+				if !ok {
+					continue
+				}
+				f := c.Call.StaticCallee()
+				if f != nil && f.Pkg != nil && f.Pkg.Pkg.Path() == "math/big" && (f.Name() == "IsInt64" || f.Name() == "BitLen" || f.Name() == "Cmp") && feedsBranch(c, 4) {
+					fits = c
+				}
+			}
+		}
+	}
+	n := 0
+	for _, ret := range returns(fn) {
+		if ei < 0 || !definitelyNonNilError(p, ret.Results[ei], 0) {
+			continue
+		}
+		n++
+		what := "error exit of Int64Value"
+		if fits != nil {
+			r.OK(p.FuncName(fn), instrPos(p, ret), what, "a "+fits.Call.StaticCallee().Name()+" test of the big.Int decides a branch of this function")
+		} else {
+			r.Bad(p.FuncName(fn), instrPos(p, ret), what, "no test of the big.Int's magnitude (IsInt64, BitLen, Cmp) is made: a value that the binary reader delivers as *big.Int although it fits (-9223372036854775808, 29 00 .. 05) is refused")
+		}
+	}
+	if n == 0 {
+		missing(r, "error exits of reader.Int64Value", "none found")
+	}
+	return r
+}
+
+// ---------------------------------------------------------------------------
+// OWN-BIGFRESH
+
+// OwnBigFresh implements OWN-BIGFRESH: big.Int results are computed into fresh
+// receivers.
+func OwnBigFresh(sc Scope, min int) func(p *load.Program) *report.RuleResult {
+	return func(p *load.Program) *report.RuleResult {
+		r := newResult("OWN-BIGFRESH", "in the "+sc.Name+", every big.Int method that stores its result in its receiver (Add, Sub, Mul, Neg, Exp, SetString, SetBytes, QuoRem, ...) is called on a big.Int allocated in the same function (new(big.Int), big.NewInt, or the result of such a call): a Decimal's coefficient and a big.Int received from or handed to a caller are shared values and are never written in place, so an operand is not changed by the operation it takes part in", min)
+		for _, fn := range sortedFuncs(p) {
+			if !sc.has(p, fn) || len(fn.Blocks) == 0 {
+				continue
+			}
+			for _, b := range fn.Blocks {
+				for _, in := range b.Instrs {
+					c, ok := in.(*ssa.Call)
+					if !ok || !bigMutator(c) {
+						continue
+					}
+					recv := c.Call.Args[0]
+					what := sprintf("big.Int.%s into %s", c.Call.StaticCallee().Name(), describeOperand(recv))
+					if bigFresh(recv, 6) {
+						r.OK(p.FuncName(fn), instrPos(p, c), what, "the receiver was allocated in this function")
+					} else {
+						r.Bad(p.FuncName(fn), instrPos(p, c), what, "the receiver is not a big.Int allocated here: the result overwrites a value that others hold (an operand's coefficient, a value returned earlier)")
+					}
+				}
+			}
+		}
+		return r
+	}
+}
+
+func bigMutator(c *ssa.Call) bool {
+	f := c.Call.StaticCallee()
+	if f == nil || f.Pkg == nil || f.Pkg.Pkg.Path() != "math/big" || f.Signature.Recv() == nil || len(c.Call.Args) == 0 {
+		return false
+	}
+	if ssau.TypeName(f.Signature.Recv().Type()) != "Int" {
+		return false
+	}
+	res := f.Signature.Results()
+	if res.Len() == 0 {
+		return false
+	}
+	pt, ok := res.At(0).Type().(*types.Pointer)
+	return ok && ssau.TypeName(pt) == "Int"
+}
+
+func bigFresh(v ssa.Value, depth int) bool {
+	if depth == 0 {
+		return false
+	}
+	switch x := v.(type) {
+	case *ssa.Alloc:
+		return true
+	case *ssa.Parameter:
+		// an out-parameter of an unexported helper: fresh when every caller hands in a fresh one
+		fn := x.Parent()
+		if fn == nil || fn.Object() == nil || fn.Object().Exported() || fn.Pkg == nil {
+			return false
+		}
+		idx := -1
+		for i, pa := range fn.Params {
+			if pa == x {
+				idx = i
+			}
+		}
+		n := 0
+		for _, m := range fn.Pkg.Members {
+			var fs []*ssa.Function
+			switch mm := m.(type) {
+			case *ssa.Function:
+				fs = append(fs, mm)
+			case *ssa.Type:
+				for _, t := range []types.Type{mm.Type(), types.NewPointer(mm.Type())} {
+					ms := fn.Prog.MethodSets.MethodSet(t)
+					for i := 0; i < ms.Len(); i++ {
+						if g := fn.Prog.MethodValue(ms.At(i)); g != nil {
+							fs = append(fs, g)
+						}
+					}
+				}
+			}
+			for _, g := range fs {
+				for _, gb := range g.Blocks {
+					for _, gi := range gb.Instrs {
+						c, ok := gi.(ssa.CallInstruction)
+						if !ok || c.Common().StaticCallee() != fn || idx >= len(c.Common().Args) {
+							continue
+						}
+						n++
+						if !bigFresh(c.Common().Args[idx], depth-1) {
+							return false
+						}
+					}
+				}
+			}
+		}
+		return n > 0
+	case *ssa.Call:
+		if f := x.Call.StaticCallee(); f != nil && f.Pkg != nil && f.Pkg.Pkg.Path() == "math/big" {
+			if f.Name() == "NewInt" {
+				return true
+			}
+			if bigMutator(x) {
+				return bigFresh(x.Call.Args[0], depth-1)
+			}
+		}
+	case *ssa.Extract:
+		if c, ok := x.Tuple.(*ssa.Call); ok && x.Index == 0 && bigMutator(c) {
+			return bigFresh(c.Call.Args[0], depth-1)
+		}
+		// QuoRem and DivMod hand back their last argument as the second result
+		if c, ok := x.Tuple.(*ssa.Call); ok && x.Index == 1 && bigMutator(c) && len(c.Call.Args) == 4 {
+			return bigFresh(c.Call.Args[3], depth-1)
+		}
+	case *ssa.Phi:
+		for _, e := range x.Edges {
+			if !bigFresh(e, depth-1) {
+				return false
+			}
+		}
+		return true
+	case *ssa.UnOp:
+		// a local variable holding the pointer
+		if al, ok := x.X.(*ssa.Alloc); ok && x.Op == token.MUL && al.Referrers() != nil {
+			n := 0
+			for _, rf := range *al.Referrers() {
+				if st, ok := rf.(*ssa.Store); ok && st.Addr == ssa.Value(al) {
+					n++
+					if !bigFresh(st.Val, depth-1) {
+						return false
+					}
+				}
+			}
+			return n > 0
+		}
+	}
+	return false
+}
+
+// ---------------------------------------------------------------------------
+// ORD-POOLRESET
+
+// OrdPoolReset implements ORD-POOLRESET: what goes back into a sync.Pool was reset.
+func OrdPoolReset(p *load.Program) *report.RuleResult {
+	r := newResult("ORD-POOLRESET", "a value is put back into a sync.Pool only after its Reset (or Truncate) was called on every path since it was taken out, the error exits included: the next Get, in any goroutine, receives whatever the value still holds, so a buffer returned after a failed call prefixes someone else's output with the failed call's partial output", 0)
+	for _, fn := range sortedFuncs(p) {
+		if p.InTest(fn) || !p.InModule(fn) || len(fn.Blocks) == 0 {
+			continue
+		}
+		var puts []ssa.Instruction
+		for _, b := range fn.Blocks {
+			for _, in := range b.Instrs {
+				c, ok := in.(ssa.CallInstruction)
+				if !ok {
+					continue
+				}
+				f := c.Common().StaticCallee()
+				if f != nil && f.Pkg != nil && f.Pkg.Pkg.Path() == "sync" && f.Name() == "Put" && recvTypeName(f) == "Pool" && len(c.Common().Args) == 2 {
+					puts = append(puts, in)
+				}
+			}
+		}
+		if len(puts) == 0 {
+			continue
+		}
+		for _, put := range puts {
+			v := put.(ssa.CallInstruction).Common().Args[1]
+			if mi, ok := v.(*ssa.MakeInterface); ok {
+				v = mi.X
+			}
+			vp := ssau.Path(v)
+			ev := ssau.MustEvents(fn, func(in ssa.Instruction) []string {
+				c, ok := in.(*ssa.Call)
+				if !ok || len(c.Call.Args) == 0 {
+					return nil
+				}
+				f := c.Call.StaticCallee()
+				if f != nil && (f.Name() == "Reset" || f.Name() == "Truncate") && ssau.Path(c.Call.Args[0]) == vp {
+					return []string{"reset"}
+				}
+				return nil
+			})
+			what := sprintf("a %s put back into a sync.Pool", v.Type().String())
+			if _, isDefer := put.(*ssa.Defer); isDefer {
+				for _, ret := range returns(fn) {
+					if !ssau.Reaches(put.Block(), ret.Block()) {
+						continue
+					}
+					if ev.At(ret)["reset"] {
+						r.OK(p.FuncName(fn), instrPos(p, ret), what+" (deferred) at this exit", "Reset on every path to the exit")
+					} else {
+						r.Bad(p.FuncName(fn), instrPos(p, ret), what+" (deferred) at this exit", "this exit is reached without a Reset of the value: it goes back into the pool with its contents, and the next Get starts from them")
+					}
+				}
+				continue
+			}
+			if ev.At(put)["reset"] {
+				r.OK(p.FuncName(fn), instrPos(p, put), what, "Reset on every path to the Put")
+			} else {
+				r.Bad(p.FuncName(fn), instrPos(p, put), what, "a path reaches the Put without a Reset of the value: the next Get starts from its old contents")
+			}
+		}
+	}
+	return r
+}
